@@ -553,6 +553,7 @@ pub fn run(ctx: &Ctx) -> Report {
     }
     drop(tab);
     collision_scenario(ctx, &mut rep);
+    overwrite_chain_scenario(ctx, &mut rep);
     reopen_write_scenario(ctx, &mut rep);
     rep.notes.push(format!("total {:?}", t0.elapsed()));
     rep
@@ -601,6 +602,74 @@ fn collision_scenario(ctx: &Ctx, rep: &mut Report) {
         match read(1) {
             Ok(c) if c == want1 => {}
             other => rep.oracle_fail(case.clone(), format!("row pk=1 does not read back its last written value: {}", other.map(|c| short(&c)).unwrap_or_else(|e| e)), format!("value:{ty}:lit-upd:toast-chunk-id-collision:own-row-wrong")),
+        }
+    }
+}
+
+/// One row, updated by primary key again and again with values of changing size class (below the
+/// TOAST threshold, one chunk, several chunks, NULL), alternately as literal and as bound parameter:
+/// every UPDATE must be accepted and the cell must read back the value written last, also after reopen.
+fn overwrite_chain_scenario(ctx: &Ctx, rep: &mut Report) {
+    for (ty, ddl) in [("text", "TEXT"), ("blob", "BLOB")] {
+        for start_big in [false, true] {
+            let mut dbd = DbDir::create(ctx, "c11chain");
+            let mkv = |n: usize, seed: u8| -> OwnedValue {
+                if ty == "text" { OwnedValue::Text((0..n).map(|i| (b'a' + ((i as u8).wrapping_add(seed)) % 26) as char).collect()) }
+                else { OwnedValue::Blob((0..n).map(|i| 0x80 | ((i as u8).wrapping_add(seed) & 0x3f)).collect()) }
+            };
+            let _ = exec(dbd.db(), &format!("CREATE TABLE c (id BIGINT PRIMARY KEY, v {ddl})"));
+            let first = if start_big { mkv(7000, 9) } else { mkv(5, 9) };
+            let r0 = exec(dbd.db(), &format!("INSERT INTO c VALUES (1, {})", literal_of(&first).unwrap()));
+            let _ = exec(dbd.db(), &format!("INSERT INTO c VALUES (2, {})", literal_of(&mkv(4, 3)).unwrap()));
+            if !matches!(r0, Res::Affected(1)) { rep.count("chain-scenario-setup-failed"); continue; }
+            let sizes: [(usize, &str); 9] = [(5000, "big"), (12, "small"), (9000, "big"), (1500, "one-chunk"), (3, "small"), (4100, "big"), (0, "null"), (6000, "big"), (20, "small")];
+            let mut last = first.clone();
+            let mut prev_class = if start_big { "big" } else { "small" };
+            for (k, (n, class)) in sizes.iter().enumerate() {
+                let v = if *class == "null" { OwnedValue::Null } else { mkv(*n, k as u8) };
+                let par = k % 2 == 1;
+                let case = format!("scenario {ty} overwrite chain start={} step {k}: {prev_class} -> {class} ({})", if start_big { "big" } else { "small" }, if par { "parameter" } else { "literal" });
+                rep.case(Some(&case));
+                rep.count("overwrite-chain-step");
+                let db = dbd.db();
+                let r = if par {
+                    let ps = vec![v.clone(), OwnedValue::Int(1)];
+                    res_of(guarded(std::panic::AssertUnwindSafe(move || db.execute_with_params("UPDATE c SET v = ? WHERE id = ?", &ps))))
+                } else {
+                    exec(db, &format!("UPDATE c SET v = {} WHERE id = 1", if *class == "null" { "NULL".to_string() } else { literal_of(&v).unwrap() }))
+                };
+                let sigp = format!("value:{ty}:{}-upd:overwrite-{prev_class}-to-{class}", if par { "par" } else { "lit" });
+                if !matches!(r, Res::Affected(1)) {
+                    rep.oracle_fail(case.clone(), format!("valid UPDATE refused: {}", r.show()), format!("{sigp}:write-error"));
+                } else { last = v.clone(); }
+                let db = dbd.db();
+                let got = match guarded(std::panic::AssertUnwindSafe(move || db.query("SELECT id, v FROM c WHERE id = 1"))) {
+                    Ok(Ok(rows)) if rows.len() == 1 => Ok(vcell(&rows[0].values[1])),
+                    Ok(Ok(rows)) => Err(format!("rows={}", rows.len())),
+                    Ok(Err(e)) => Err(format!("error {e:#}")),
+                    Err(p) => Err(format!("panic {p}")),
+                };
+                match got {
+                    Ok(c) if c == vcell(&last) => {}
+                    other => { rep.oracle_fail(case.clone(), format!("the cell does not read back the value written last: {}", other.map(|c| short(&c)).unwrap_or_else(|e| e)), format!("{sigp}:read-back")); break; }
+                }
+                if !matches!(r, Res::Affected(1)) { break; }
+                prev_class = class;
+            }
+            // after reopen
+            if dbd.reopen().is_ok() {
+                let db = dbd.db();
+                let got = match guarded(std::panic::AssertUnwindSafe(move || db.query("SELECT id, v FROM c WHERE id = 1"))) {
+                    Ok(Ok(rows)) if rows.len() == 1 => Ok(vcell(&rows[0].values[1])),
+                    Ok(Ok(rows)) => Err(format!("rows={}", rows.len())),
+                    Ok(Err(e)) => Err(format!("error {e:#}")),
+                    Err(p) => Err(format!("panic {p}")),
+                };
+                match got {
+                    Ok(c) if c == vcell(&last) => {}
+                    other => rep.oracle_fail(format!("scenario {ty} overwrite chain start_big={start_big} reopen"), format!("after reopen the cell does not read back the value written last: {}", other.map(|c| short(&c)).unwrap_or_else(|e| e)), format!("value:{ty}:overwrite-chain:reopen:read-back")),
+                }
+            }
         }
     }
 }
